@@ -21,9 +21,10 @@
 //!   from one global counter. [`sync_event`] is only called while the caller holds
 //!   `PathSetSharedState::sync` of the worker it describes and carries a snapshot of the state
 //!   protected by that lock.
-//! * [`map_guard`] serialises the operations on `managed_paths` (which are already mutually
-//!   exclusive per key inside `scc::HashIndex`) so that [`map_insert`], [`map_load`] and
-//!   [`map_remove`] are stamped in the order in which the map changed.
+//! * [`map_insert`] and [`map_load`] are called while the bucket lock of `managed_paths` is held
+//!   (inside the `entry_sync` arms). `remove_sync` does not expose its lock, so a removal is
+//!   bracketed by [`map_remove_begin`] / [`map_remove_end`] (and [`map_remove`] if an entry was
+//!   removed): it took effect somewhere in between.
 //! * [`yield_point`] lets a harness perturb the schedule (sleep/yield) between critical sections.
 //! * [`VerifHandle`] gives access to the `PathSetHandle` of every worker created since the last
 //!   [`reset`], so that "every handle reports an error after drop" can be observed.
@@ -32,7 +33,7 @@
 
 use std::{
     sync::{
-        Arc, Mutex, MutexGuard, RwLock,
+        Arc, Mutex, RwLock,
         atomic::{AtomicU64, Ordering},
     },
     time::Duration,
@@ -51,7 +52,7 @@ use super::{
 pub struct Event {
     /// Global sequence number, drawn while the lock protecting the described state is held.
     pub seq: u64,
-    /// Event kind (`map_insert`, `map_load`, `map_remove`, `fetch_start`, `fetch_done`,
+    /// Event kind (`map_insert`, `map_load`, `map_remove_begin`, `map_remove`, `map_remove_end`, `fetch_start`, `fetch_done`,
     /// `exiting`, `exit_notify`, `worker_exit`, `caller_check`, `caller_woken`).
     pub kind: &'static str,
     /// Worker (path set) the event refers to; 0 if none.
@@ -89,7 +90,6 @@ type Yield = Arc<dyn Fn(&'static str) + Send + Sync>;
 static SEQ: AtomicU64 = AtomicU64::new(0);
 static SINK: RwLock<Option<Sink>> = RwLock::new(None);
 static YIELD: RwLock<Option<Yield>> = RwLock::new(None);
-static MAP: Mutex<()> = Mutex::new(());
 static REGISTRY: Mutex<Vec<Arc<PathSetSharedState>>> = Mutex::new(Vec::new());
 
 /// Installs (or removes) the event sink.
@@ -156,26 +156,20 @@ fn snapshot_of(shared: &PathSetSharedState, state: &PathSetSyncState) -> Snapsho
     }
 }
 
-/// Serialises operations on the managed-pair map while observed.
-pub fn map_guard() -> Option<MutexGuard<'static, ()>> {
-    sink()?;
-    Some(MAP.lock().unwrap_or_else(|e| e.into_inner()))
-}
-
-/// A new worker is about to be inserted for `(src, dst)` (bucket lock held).
+/// A new worker is about to be inserted for `(src, dst)` (the bucket lock of the map is held).
+/// Worker ids are assigned in the order of these events.
 pub fn map_insert(shared: &Arc<PathSetSharedState>, src: IsdAsn, dst: IsdAsn) {
     if sink().is_none() {
         return;
     }
-    let id = {
-        let mut reg = REGISTRY.lock().unwrap_or_else(|e| e.into_inner());
-        reg.push(shared.clone());
-        reg.len() as u64
-    };
+    let mut reg = REGISTRY.lock().unwrap_or_else(|e| e.into_inner());
+    reg.push(shared.clone());
+    let id = reg.len() as u64;
+    // stamped while the registry is locked: ids and sequence numbers grow together
     emit("map_insert", id, Some((src, dst)), None, "");
 }
 
-/// An existing entry was found for `(src, dst)` (bucket lock held).
+/// An existing entry was found for `(src, dst)` (the bucket lock of the map is held).
 pub fn map_load(shared: &Arc<PathSetSharedState>, src: IsdAsn, dst: IsdAsn) {
     if sink().is_none() {
         return;
@@ -183,9 +177,20 @@ pub fn map_load(shared: &Arc<PathSetSharedState>, src: IsdAsn, dst: IsdAsn) {
     emit("map_load", worker_id(shared), Some((src, dst)), None, "");
 }
 
-/// The entry of `(src, dst)` was removed from the map.
+/// `stop_managing_paths(src, dst)` is about to access the map. The removal itself is not
+/// observable under the map's lock: it happens between this event and [`map_remove_end`].
+pub fn map_remove_begin(src: IsdAsn, dst: IsdAsn) {
+    emit("map_remove_begin", 0, Some((src, dst)), None, "");
+}
+
+/// `stop_managing_paths(src, dst)` removed an entry (reported after the fact).
 pub fn map_remove(src: IsdAsn, dst: IsdAsn) {
     emit("map_remove", 0, Some((src, dst)), None, "");
+}
+
+/// `stop_managing_paths(src, dst)` is done with the map.
+pub fn map_remove_end(src: IsdAsn, dst: IsdAsn) {
+    emit("map_remove_end", 0, Some((src, dst)), None, "");
 }
 
 /// A point passed while holding `shared.sync`; `state` is the locked state.
